@@ -63,6 +63,14 @@ Theorem C10_copy : forall m st other,
 Proof. exact copy_from_spec. Qed.
 Print Assumptions C10_copy.
 
+(** copy-from-self (m.CopyFrom(m), or a reader value that aliases the receiver) leaves the frame unchanged: the
+    source is marshalled before any field is assigned. The walker executes self-copies on the generated types. *)
+Theorem C10_copy_self : forall m st,
+  wf_message m -> wf_mux m -> inv (msg_signals m) st = true ->
+  inv (msg_signals m) (copy_from m st st) = true /\ frame_of m (copy_from m st st) = frame_of m st.
+Proof. exact copy_from_self. Qed.
+Print Assumptions C10_copy_self.
+
 (** reset (and construction) restore exactly the declared start values *)
 Theorem C10_reset_restores_start_values : forall m this other,
   snd (step m this other OpReset) = map reset_value (msg_signals m) /\
@@ -92,6 +100,36 @@ Theorem C10_physical_setter_in_range : forall s xbits,
   in_range s (phys_set_value s xbits) = true.
 Proof. exact phys_set_value_in_range. Qed.
 Print Assumptions C10_physical_setter_in_range.
+
+(** PHYSICAL ACCESSORS ARE LOCAL TO THEIR SIGNAL. [phys_get m st i] is the generated <Signal>() on field i:
+    ToPhysical (of signal i's own descriptor) of float64(field i). After Set<Signal>(x) field i holds
+    T(FromPhysical(x)) computed from signal i's own descriptor and <Signal>() is ToPhysical of exactly that
+    value; the raw and physical getters of every other signal j are unchanged. (That the generated code's
+    Messages().<Msg>.<Signal> IS signal i's descriptor is a fact about the emitted Go literal: compared on the
+    built packages by the generated-code stage of C09, checks/descriptor.py.) *)
+Theorem C10_physical_setter_then_getter : forall m st i s xbits,
+  nth_error (msg_signals m) i = Some s -> (i < length st)%nat ->
+  nth i (phys_set m st i xbits) 0 = phys_set_value s xbits /\
+  phys_get m (phys_set m st i xbits) i = Some (getter_physical s (phys_set_value s xbits)).
+Proof. exact phys_get_after_set. Qed.
+Print Assumptions C10_physical_setter_then_getter.
+Theorem C10_physical_setter_leaves_other_signals : forall m st i j xbits,
+  i <> j -> nth j (phys_set m st i xbits) 0 = nth j st 0 /\ phys_get m (phys_set m st i xbits) j = phys_get m st j.
+Proof. exact phys_set_other. Qed.
+Print Assumptions C10_physical_setter_leaves_other_signals.
+
+(** the generated physical getter obeys C09's clamp clause in every state whose field is below 2^53 in
+    magnitude (every reachable state of a signal of at most 53 bits): declared range => finite and inside
+    [min, max]; no declared range => fl(fl(raw*scale)+offset) *)
+Theorem C10_physical_getter_clamped : forall m st i s,
+  nth_error (msg_signals m) i = Some s ->
+  c09_class_f (sc s) (off s) (smin s) (smax s) = true -> Z.abs (nth i st 0) < 2 ^ 53 ->
+  exists r, phys_get m st i = Some r /\
+    (declared_f (smin s) (smax s) = true -> is_finite r = true /\ Bleb (smin s) r = true /\ Bleb r (smax s) = true) /\
+    (declared_f (smin s) (smax s) = false ->
+       r = Bplus mode_NE (Bmult mode_NE (f64_of_Z (nth i st 0)) (sc s)) (off s)).
+Proof. exact phys_get_clamped. Qed.
+Print Assumptions C10_physical_getter_clamped.
 
 (** all clauses for every state reachable through ANY finite history of raw setters, physical
     setters, reset, copy-from and unmarshal on two instances *)
@@ -132,3 +170,52 @@ Theorem C10_class_link : forall db m, in_class43 db = true -> In m (db_messages 
   wf_message m /\ wf_mux m /\ wf_defaults m /\ wf_header m.
 Proof. exact class43_in_theorem_class. Qed.
 Print Assumptions C10_class_link.
+
+(** END TO END (composition with C06 and C07; E2E/Pipeline.v). "A valid, self-consistent frame" is what
+    survives the transport: take ANY list of (message, state) pairs whose states satisfy the range
+    invariant ([sender_ok (m, st)] = wf_message m /\ wf_mux m /\ wf_header m /\ inv (msg_signals m) st = true,
+    i.e. every state reachable by the histories above). Each generated Frame() is a well-formed frame that
+    passes Validate and is written by TransmitFrame as one 16-byte block ([S_layout], C06); for EVERY
+    segmentation [chunks] of the concatenated byte stream into reads (C07), a Receiver delivers exactly those
+    frames, in order - each Receive() = true with Frame() = the sent frame, HasErrorFrame() = false and the
+    interceptor called once with that frame ([delivers]) - and afterwards Receive() = false with Err() = nil. *)
+From CanVerif Require E2E.Pipeline.
+Theorem C10_frames_survive_the_wire : forall sends chunks rest extra,
+  Forall Pipeline.sender_ok sends ->
+  Socketcan.ReceiverSpec.no_stall 0 chunks ->
+  concat chunks = concat (map (fun ms => Socketcan.WireSpec.S_layout (Pipeline.sent_frame ms)) sends) ->
+  exists evs,
+    Socketcan.Receiver.receive_calls (length sends + extra)
+        (map Socketcan.Receiver.RData chunks ++ Socketcan.Receiver.REOF :: rest) =
+      evs ++ repeat (Socketcan.ReceiverSpec.stop_event None) extra /\
+    Forall2 Pipeline.delivers evs (map Pipeline.sent_frame sends).
+Proof. exact Pipeline.pipeline_delivers. Qed.
+Print Assumptions C10_frames_survive_the_wire.
+
+(** what each TransmitFrame call writes is that block, 16 bytes *)
+Theorem C10_transmitted_block : forall sends, Forall Pipeline.sender_ok sends ->
+  Forall (fun ms => Socketcan.Wire.transmit_bytes (Pipeline.sent_frame ms) =
+                      Some (Socketcan.WireSpec.S_layout (Pipeline.sent_frame ms))
+                    /\ length (Socketcan.WireSpec.S_layout (Pipeline.sent_frame ms)) = 16%nat) sends.
+Proof. exact Pipeline.pipeline_transmit. Qed.
+Print Assumptions C10_transmitted_block.
+
+(** and the receiving node's dispatcher (Messages().UnmarshalFrame on a fresh zero value) finds the sender's
+    message and decodes the delivered frame into a state that marshals to the identical frame *)
+Theorem C10_delivered_frame_dispatches : forall db m st,
+  Pipeline.sender_ok (m, st) -> find_message (db_messages db) (msg_id m) = Some m ->
+  exists st', dispatch db (Pipeline.of_wire (Pipeline.sent_frame (m, st))) = Some (m, inr st') /\
+              inv (msg_signals m) st' = true /\ frame_of m st' = frame_of m st.
+Proof. exact Pipeline.pipeline_dispatch. Qed.
+Print Assumptions C10_delivered_frame_dispatches.
+
+(** non-vacuity of the end-to-end statement: two frames of the example message, read in 5 + 27 bytes *)
+Example C10_pipeline_nonvacuous :
+  let m := C03_example_message in
+  let sends := [(m, [9; 0; -2048; 0; 0]); (m, new_state m)] in
+  let bs := concat (map (fun ms => Socketcan.WireSpec.S_layout (Pipeline.sent_frame ms)) sends) in
+  length bs = 32%nat /\
+  map (fun ev => match ev with Socketcan.Receiver.EvFrame [g] f false _ => Some (Pipeline.of_wire f) | _ => None end)
+      (Socketcan.Receiver.receive_calls 2 (map Socketcan.Receiver.RData [firstn 5 bs; skipn 5 bs] ++ [Socketcan.Receiver.REOF]))
+  = [Some (frame_of m [9; 0; -2048; 0; 0]); Some (frame_of m (new_state m))].
+Proof. vm_compute. split; reflexivity. Qed.
